@@ -490,4 +490,32 @@ pub struct ServerPool {'''),
                     self.stats.idle();
 ''', new='''                    // protocol buffer
 '''),
+    # ------------------------------------------------------------------ C16
+    dict(id="c16-read-before-register", prop="C16", file="src/pool.rs", expect="C16-R1",
+         what="flag read before the waiter is registered (lost wake-up window)",
+         old='''        let waiter = self.paused_waiter.notified();
+        let paused = self.paused.load(Ordering::Relaxed);
+''', new='''        let paused = self.paused.load(Ordering::Relaxed);
+        let waiter = self.paused_waiter.notified();
+'''),
+    dict(id="c16-notify-before-clear", prop="C16", file="src/pool.rs", expect="C16-R2",
+         what="waiters woken before the flag is cleared",
+         old='''        self.paused.store(false, Ordering::Relaxed);
+        self.paused_waiter.notify_waiters();''', new='''        self.paused_waiter.notify_waiters();
+        self.paused.store(false, Ordering::Relaxed);'''),
+    dict(id="c16-notify-one", prop="C16", file="src/pool.rs", expect="C16-R2",
+         what="only one held client is released",
+         old='''        self.paused_waiter.notify_waiters();''', new='''        self.paused_waiter.notify_one();'''),
+    dict(id="c16-gate-skipped-for-sync", prop="C16", file="src/client.rs", expect="C16-R3",
+         what="extended-protocol Sync bypasses the pause gate",
+         old='''            pool.wait_paused().await;''', new='''            if message[0] as char != 'S' {
+                pool.wait_paused().await;
+            }'''),
+    dict(id="c16-admin-pause-first-pool-only", prop="C16", file="src/admin.rs", expect="C16-R4",
+         what="global PAUSE stops after the first pool",
+         old='''            for (_, pool) in get_all_pools() {
+                pool.pause();
+            }''', new='''            if let Some((_, pool)) = get_all_pools().into_iter().next() {
+                pool.pause();
+            }'''),
 ]
